@@ -53,7 +53,7 @@ example : Ex.f0.clusterToRow.lookup 31 = some 1 ∧
 /-- "... are accepted by the next stage": a statistics file in which every leaf
 of the stored taxonomy has a row (of the width of `col_names`) is read by the
 mapper without error. -/
-theorem names_consistent_accepted (f : StatsFile) (h : FileOK f) : ∃ M, leafMeans f = .ok M :=
+theorem names_consistent_file_accepted (f : StatsFile) (h : FileOK f) : ∃ M, leafMeans f = .ok M :=
   leafMeans_ok f h
 
 example : FileOK Ex.f0 := fileOK_of_check _ (by decide +kernel)
